@@ -99,7 +99,8 @@ ObsStep(e) ==
               [] e.op = "drop" -> [oLastW EXCEPT ![e.f] = "-"]
               [] OTHER -> oLastW
       W0 == IF e.op \in {"poll", "drop"} THEN [oWoken EXCEPT ![e.f] = FALSE] ELSE oWoken
-      ws == Wakes(e)
+      \* wakers taken under the lock and invoked after it (`taken`) count like in-lock wake-ups
+      ws == Wakes(e) \o (IF "taken" \in DOMAIN e THEN e.taken ELSE <<>>)
   IN
   /\ oA' = A /\ oLedger' = L /\ oOrd' = O /\ oLastW' = LW
   /\ oReq' = CASE e.op = "create" -> [oReq EXCEPT ![e.f] = e.n]
